@@ -691,35 +691,3 @@ def o_c07_step(params, cases, outs):
     return None
 
 
-# ------------------------------------------------------------------------------------------------
-# registry
-# ------------------------------------------------------------------------------------------------
-
-PROPS = {
-    "C04": dict(props=["Props/C04.v"], profiles=["debug"], gen=gen_C04,
-                rule="sections built through the public section builder from a generated header (all four strand pairs; extents at "
-                     "u64::MAX, 2^63 in a quarter of the cases) and a record list: adding up (45%), off by +-k on either side or in a "
-                     "record (30%), one value that overflows / underflows (15%), terminating records in odd places (10%); zero sizes in "
-                     "30%. Both stepthrough() and stepthrough_with_data() are drained and must agree. All cases non-trivial; "
-                     "distinct = distinct case lines."),
-    "C05": dict(props=["Props/C05.v"], profiles=["debug"], gen=gen_C05,
-                rule="byte streams made of lines over {blank, valid header, non-terminating data, terminating data, junk, invalid UTF-8}: "
-                     "60% grammatical skeletons with 0-2 point mutations, 40% uniformly random strings, length 0..12+; sections() drained "
-                     "to exhaustion (cap 60 calls). The thorough tier adds every string over the five-letter alphabet up to length 6. "
-                     "Non-trivial = at least 2 lines; distinct = distinct case lines."),
-    "C07": dict(props=["Props/C07.v"], profiles=["debug"], gen=gen_C07,
-                rule="the C05 line streams (half of them extended to end inside a section) drained through sections() and lines(); the "
-                     "C04 sections (adding up, off by k, overflowing, odd kinds) drained through both step-throughs; every drain is capped at "
-                     "60 calls, far above lines+1 / records+1. Non-trivial = at least 2 lines / any section; distinct = distinct case lines."),
-    "C14": dict(props=["Props/C14.v"], profiles=["debug", "release"], gen=gen_C14,
-                rule="sequence constructor calls on (name,size,strand,start,end) strings drawn from valid numbers (incl. 0, u64::MAX, "
-                     "leading zeros, '+'), invalid spellings and values around start<=end<=size; every (size,dt,dq,kind) shape of the record "
-                     "constructor; header and data lines, valid and corrupted field-wise; run in debug and release. All generated cases count "
-                     "as non-trivial; distinct = distinct case lines."),
-    "C15": dict(props=["Props/C15.v"], profiles=["debug"], gen=gen_C15,
-                rule="clamp/liftover/try_new calls on generated pairs: positions from {0..3, u64::MAX-3..u64::MAX} "
-                     "(45%), 0..40 (40%), uniform u64 (15%); lengths 0,1,2,3,small,huge; all four strand pairs; clamp "
-                     "intervals drawn around the reference ends. A case is non-trivial when the clamp interval meets the "
-                     "reference interval on the same contig and strand / the lifted coordinate lies inside / the lengths differ; "
-                     "distinct = distinct case lines."),
-}
